@@ -144,6 +144,9 @@ class ArbitraryDecoder:
         return (bits & keep).astype(np.uint8)       # density 1/4
 
 
+_SHARED_EM = {}     # error-model objects shared by the members of one 'calibration-sequence' case
+
+
 def build(combo):
     """combo -> (code, error_model, decoder) from the repo's own classes."""
     from panqec.config import CODES, DECODERS
@@ -155,6 +158,9 @@ def build(combo):
         code.deform(combo['deform'])
     r = [float(Fraction(x)) for x in combo['r']]
     em = PauliErrorModel(*r, deformation_name=combo.get('ndeform'))
+    if combo.get('_share') is not None:
+        # one error-model OBJECT for several codes, as BatchSimulation's itertools.product(codes, error_models) does
+        em = _SHARED_EM.setdefault(combo['_share'], em)
     p = float(Fraction(combo['p']))
     dec = SpyDecoder(DECODERS[combo['decoder']](code, em, p, **combo.get('dparams', {})))
     return code, em, dec, p
@@ -618,6 +624,17 @@ def check_case(case):
             return None
         if kind == 'calibration':
             return calibration_violation(case['case'])
+        if kind == 'calibration-sequence':
+            # the same error-model object serves several codes of one class with equal n, one after the other
+            token = object()
+            try:
+                for j, c_ in enumerate(case['cases']):
+                    msg = calibration_violation(dict(c_, _share=id(token)))
+                    if msg:
+                        return f"member {j} ({c_['code']}{tuple(c_['size'])}) of a sequence sharing one error model: {msg}"
+            finally:
+                _SHARED_EM.pop(id(token), None)
+            return None
     except DecoderFailure:
         return None          # the decoder itself raised: outside C11
     except StubMismatch:
@@ -715,6 +732,15 @@ def oracle_cases(ctx, deep):
     cases.append({'kind': 'history', 'combo': usable[0], 'seed': 1, 'runs': [0]})
     for case in calibration_cases(ctx.thorough, deep):
         cases.append({'kind': 'calibration', 'case': case})
+    # one deformed, biased error-model object used for lattices of one class with equal n and another shape
+    seqs = [[('RotatedPlanar2DCode', (2, 3)), ('RotatedPlanar2DCode', (3, 2))]]
+    if deep:
+        seqs += [[('RotatedPlanar2DCode', (3, 2)), ('RotatedPlanar2DCode', (2, 3))],
+                 [('Planar2DCode', (1, 3)), ('Planar2DCode', (3, 1))]]
+    for seq in seqs:
+        cases.append({'kind': 'calibration-sequence', 'cases': [
+            {'code': c_, 'size': list(sz), 'decoder': 'MatchingDecoder', 'r': ['1/2', '1/4', '1/4'], 'p': '1', 'M': 4,
+             'ndeform': 'XZZX', 'deform': None, 'dparams': {}} for (c_, sz) in seq]})
     return cases
 
 
@@ -722,7 +748,7 @@ def oracle(ctx, deep=False, broken=None):
     cases = oracle_cases(ctx, deep)
 
     def key(c):
-        combo = c.get('combo') or c.get('case')
+        combo = c.get('combo') or c.get('case') or c['cases'][-1]
         return {'kind': c['kind'], 'code': combo['code'], 'decoder': combo['decoder']}
     fails = first_failures(cases, check_case, key=key)
     return fails, {'evaluations': len(cases)}
